@@ -250,7 +250,7 @@ def registry(cid, tier='thorough'):
         key_refuse += ['%s is not None' % D, '(%s is not None and len(%s) != %d)' % (S, S, SK.seed_len(cid))]
     # the conditions are tested in this order by the code; each later one is meaningful only when the earlier ones are false
     conds = ['kwargs.get("curve") not in %r' % (EC.ALL_NAMES,), coords_bad] + key_refuse + ([invalid] if mont else []) + [mismatch]
-    refuses = ' or '.join(conds)
+    refuses = 'disj(%s)' % ', '.join(conds)       # every operand is total (None-ness of a keyword is concrete and guards its use)
     reg.add(Contract(K + 'construct', params={'kwargs': '|'.join(cs)}, result=OKEY,
                      raises={'TypeError': ('iff', '"point" in kwargs'), 'ValueError': ('iff', '"point" not in kwargs and (%s)' % refuses)},
                      ensures={'valid': 'valid(result)',
@@ -296,32 +296,36 @@ def add_sec1(reg, cid, nm):
     p_ = SK.CURVE_P[cid]
     oid = SK.CURVE_OID[cid]
     shapes = {'ec_point': 'bytes', 'curve_oid': 'const:%r|none|str' % oid, 'curve_name': 'const:%r|none|str' % nm[0]}
+    either = '(curve_oid is None) != (curve_name is None)'       # docstring: 'Either curve_id or curve_name must be specified'
     known = '(curve_oid == %r or (curve_oid is None and curve_name == %r))' % (oid, nm[0])
     inl = [KEY + '.pointQ', KEY + '.d', KEY + '.seed', KEY + '.has_private']
     if cid > 5:
-        reg.add(Contract(K + '_import_public_der', params=shapes, requires=[known], raises={'ValueError': ('iff', 'True or len(ec_point) >= 0')},
+        reg.add(Contract(K + '_import_public_der', params=shapes, requires=[either], raises={'ValueError': ('iff', 'True or len(ec_point) >= 0')},
                          modifies=[], inline=inl))
         return
     b_ = SK.CURVE_B[cid]
-    t = 'ec_point[0]'
+    # clauses are written with the non-forking forms (conj / disj / imp / ite, nth = total indexing): every operand is total
+    t = 'nth(ec_point, 0)'
     x_u, y_u = 'be(ec_point[1:%d])' % (n + 1), 'be(ec_point[%d:])' % (n + 1)
     x_c = 'be(ec_point[1:])'
     rhs = '((%s * %s * %s - %s * 3 + %d) %% %d)' % (x_c, x_c, x_c, x_c, b_, p_)          # y^2 = x^3 - 3x + b (FIPS 186-4 D.1.2)
     root = 'spec.keys.sqrt_mod(%s, %d)' % (rhs, p_)
-    y_c = '(%s if %s %% 2 == %s - 2 else %d - %s)' % (root, root, t, p_, root)            # SEC 1 2.3.4 step 2.4: the root with y mod 2 == prefix - 2
-    bad_u = '(%s == 4 and (len(ec_point) != %d or not spec.ecgroup.valid(%d, spec.ecgroup.pt(%s, %s))))' % (t, 1 + 2 * n, cid, x_u, y_u)
-    bad_c = ('((%s == 2 or %s == 3) and (len(ec_point) != %d or not spec.keys.is_square_mod(%s, %d) or not spec.ecgroup.valid(%d, spec.ecgroup.pt(%s, %s))))'
+    y_c = 'ite(%s %% 2 == %s - 2, %s, %d - %s)' % (root, t, root, p_, root)               # SEC 1 2.3.4 step 2.4: the root with y mod 2 == prefix - 2
+    bad_u = 'conj(%s == 4, disj(len(ec_point) != %d, not spec.ecgroup.valid(%d, spec.ecgroup.pt(%s, %s))))' % (t, 1 + 2 * n, cid, x_u, y_u)
+    bad_c = ('conj(disj(%s == 2, %s == 3), disj(len(ec_point) != %d, not spec.keys.is_square_mod(%s, %d), not spec.ecgroup.valid(%d, spec.ecgroup.pt(%s, %s))))'
              % (t, t, 1 + n, rhs, p_, cid, x_c, y_c))
-    unknown = '(curve_oid is not None and curve_oid != %r) or (curve_oid is None and curve_name != %r)' % (oid, nm[0])
+    unknown = '((curve_oid is not None and curve_oid != %r) or (curve_oid is None and curve_name != %r))' % (oid, nm[0])
     G = 'result._point._point._raw_pointer.g_pt'
-    reg.add(Contract(K + '_import_public_der', params=shapes, result=OKEY,
+    reg.add(Contract(K + '_import_public_der', params=shapes, result=OKEY, requires=[either],
                      raises={'IndexError': ('iff', '%s and len(ec_point) == 0' % known),
-                             'ValueError': ('iff', '(%s) or (len(ec_point) > 0 and (%s or %s or %s not in (2, 3, 4)))' % (unknown, bad_u, bad_c, t))},
-                     ensures={'public': 'result._d is None and result._point is not None', 'valid': 'valid(result)',
-                              'uncompressed': '%s == 4 ==> %s == spec.ecgroup.pt(%s, %s)' % (t, G, x_u, y_u),
-                              'compressed_x': '%s != 4 ==> spec.ecgroup.px(%s) == %s' % (t, G, x_c),
-                              'compressed_y': '%s != 4 ==> spec.ecgroup.py(%s) == %s' % (t, G, y_c),
-                              'parity': '%s != 4 ==> spec.ecgroup.py(%s) %% 2 == %s - 2' % (t, G, t)},
+                             'ValueError': ('iff', 'disj(%s, conj(len(ec_point) > 0, disj(%s, %s, conj(%s != 2, %s != 3, %s != 4))))' % (unknown, bad_u, bad_c, t, t, t))},
+                     # (the invariant of a public NIST key, spelled out: cheaper to evaluate than valid(result))
+                     ensures={'public': 'result._d is None and result._seed is None and result._point is not None',
+                              'on_curve': 'spec.ecgroup.valid(%d, %s)' % (cid, G),
+                              'uncompressed': 'imp(%s == 4, %s == spec.ecgroup.pt(%s, %s))' % (t, G, x_u, y_u),
+                              'compressed_x': 'imp(%s != 4, spec.ecgroup.px(%s) == %s)' % (t, G, x_c),
+                              'compressed_y': 'imp(%s != 4, spec.ecgroup.py(%s) == %s)' % (t, G, y_c),
+                              'parity': 'imp(%s != 4, spec.ecgroup.py(%s) %% 2 == %s - 2)' % (t, G, t)},
                      modifies=[], inline=inl))
 
 
@@ -422,6 +426,30 @@ def loader_registry():
     return reg
 
 
+# ---------------------------------------------------------------------------------------------------- import cascade (C13)
+def cascade_registry():
+    """ECC._import_der: four decoders tried in turn; UnsupportedEccFeature is passed on, (ValueError, TypeError, IndexError) mean 'try
+    the next one'.  Proved from the decoders' raises sets: nothing but ValueError (UnsupportedEccFeature is one) escapes.  The
+    decoders' own sets (ValueError incl. UnsupportedEccFeature, plus IndexError from _import_public_der on an empty BIT STRING and
+    TypeError, which the tuple also covers) are stated as weak contracts here: NOT PROVED for the four decoders themselves (see the end
+    of this file)."""
+    from .key_common import key_base_registry
+    reg = key_base_registry()
+    reg.add(ClassContract(KEY, fields={}))
+    wide = {'ValueError': ('only_if', 'True'), 'TypeError': ('only_if', 'True'), 'IndexError': ('only_if', 'True'),
+            K + 'UnsupportedEccFeature': ('only_if', 'True')}
+    for f in ('_import_subjectPublicKeyInfo', '_import_x509_cert'):
+        reg.add(Contract(K + f, params={'encoded': 'bytes', 'kwargs': 'tuple()|tuple(none)|tuple(bytes)'}, raises=dict(wide), result=OKEY, modifies=[],
+                         assumed='raises set of the decoder (weak): unchecked'))
+    reg.add(Contract(K + '_import_rfc5915_der', params={'encoded': 'bytes', 'passphrase': 'bytes|none', 'curve_oid': 'any'}, raises=dict(wide),
+                     result=OKEY, modifies=[], assumed='raises set of the decoder (weak): unchecked'))
+    reg.add(Contract(K + '_import_pkcs8', params={'encoded': 'bytes', 'passphrase': 'bytes|none'}, raises=dict(wide), result=OKEY, modifies=[],
+                     assumed='raises set of the decoder (weak): unchecked'))
+    reg.add(Contract(K + '_import_der', params={'encoded': 'bytes', 'passphrase': 'bytes|none'}, raises={'ValueError': ('only_if', 'True')},
+                     result=OKEY, modifies=[], ensures={'key': 'isinstance(result, EccKey)'}))
+    return reg
+
+
 def units(prop, tier):
     from vf.pyunit import pyvc_unit
     out = []
@@ -439,6 +467,8 @@ def units(prop, tier):
             if cid in DECODERS:
                 out.append(pyvc_unit(prop, 'key.ecc.decode.%s' % EC.LABEL[cid], lambda cid=cid: registry(cid, tier), DECODERS[cid]))
             out.append(pyvc_unit(prop, 'key.ecc.sec1.%s' % EC.LABEL[cid], lambda cid=cid: registry(cid, tier), [K + '_import_public_der']))
+    if prop == 'C13':
+        out.append(pyvc_unit(prop, 'key.ecc.import_der', cascade_registry, [K + '_import_der']))
     if prop == 'C18':
         for cid in EC.ALL_CIDS:
             out.append(pyvc_unit(prop, 'key.ecc.generate.%s' % EC.LABEL[cid], lambda cid=cid: registry(cid, tier), [K + 'generate']))
